@@ -123,6 +123,31 @@ pub fn corpus_g(rich: bool) -> Vec<(Vec<u8>, Dialect)> {
     out
 }
 
+/// Integer literals too long for 64 bits in every radix, and their near misses: one character
+/// replaced by the first non-digit of the radix (the digit equal to the radix) at the first
+/// position, before and after the point where the accumulator overflows, and at the end; long
+/// decimals with a malformed fraction / exponent. The scanner switches code paths when the
+/// accumulator overflows, so short near misses do not exercise the second path.
+pub fn long_number_tokens() -> Vec<Vec<u8>> {
+    let mut out: Vec<Vec<u8>> = Vec::new();
+    for (prefix, max, bad) in [("#b", '1', '2'), ("#o", '7', '8'), ("#d", '9', 'a'), ("", '9', 'a'), ("#x", 'f', 'g'), ("#x", 'F', 'G')] {
+        for sign in ["", "-"] {
+            let body: String = std::iter::repeat(max).take(70).collect();
+            out.push(format!("{}{}{}", prefix, sign, body).into_bytes());
+            for pos in [0usize, 30, 66, 69] {
+                let mut b: Vec<char> = body.chars().collect();
+                b[pos] = bad;
+                out.push(format!("{}{}{}", prefix, sign, b.into_iter().collect::<String>()).into_bytes());
+            }
+        }
+    }
+    let nines: String = std::iter::repeat('9').take(40).collect();
+    for tail in [".5.5", "e", "e+", ".5e", ".5e5x", "e5.5", "/2", ".", "..", "e400", ".5e-400", "e-400"] {
+        out.push(format!("{}{}", nines, tail).into_bytes());
+    }
+    out
+}
+
 /// All texts of the corpus regardless of dialect, plus the malformed pool.
 pub fn corpus_all(rich: bool) -> Vec<Vec<u8>> {
     let mut v: Vec<Vec<u8>> = corpus_g(rich).into_iter().map(|x| x.0).collect();
@@ -132,6 +157,7 @@ pub fn corpus_all(rich: bool) -> Vec<Vec<u8>> {
     for s in MALFORMED_BYTES {
         v.push(s.to_vec());
     }
+    v.extend(long_number_tokens());
     v.sort_by(|a, b| (a.len(), a).cmp(&(b.len(), b)));
     v.dedup();
     v
